@@ -356,6 +356,27 @@ pub fn run(ctx: &Ctx) -> Outcome {
         }
         all.push(RType::Complex(path("std::collections::HashMap"), vec![RType::Path(path("std::string::String")), RType::Complex(path("std::vec::Vec"), vec![RType::Complex(path("std::option::Option"), vec![RType::Complex(path("std::collections::BTreeMap"), vec![RType::Path(path("u64")), RType::Path(path("std::string::String"))])])])]));
     }
+    // path segments that mean something to Rust but nothing to Kiki: every Rust keyword (strict, reserved, weak) and
+    // primitive type name in every position of a path, as a generic callee and as an argument (`pub` is left out: the
+    // reader of the emitted definitions takes it for the visibility keyword, which it is)
+    {
+        const WORDS: &[&str] = &[
+            "as", "break", "const", "continue", "crate", "dyn", "else", "extern", "false", "fn", "for", "if", "impl", "in", "let", "loop", "match", "mod", "move", "mut", "ref", "return", "self", "Self", "static", "super", "trait", "true", "type",
+            "unsafe", "use", "where", "while", "async", "await", "abstract", "become", "box", "do", "final", "macro", "override", "priv", "try", "typeof", "unsized", "virtual", "yield", "union", "macro_rules", "raw", "r", "str", "bool", "char", "u8", "usize", "f64",
+            "String", "Vec", "Option", "Box", "_x", "__", "_0",
+        ];
+        for w in WORDS {
+            let w = w.to_string();
+            all.push(RType::Path(vec![w.clone()]));
+            all.push(RType::Path(vec![w.clone(), "B".into()]));
+            all.push(RType::Path(vec!["a".into(), w.clone()]));
+            all.push(RType::Path(vec!["a".into(), w.clone(), "B".into()]));
+            all.push(RType::Path(vec![w.clone(), w.clone(), "B".into()]));
+            all.push(RType::Complex(vec![w.clone()], vec![RType::Unit]));
+            all.push(RType::Complex(path("a::B"), vec![RType::Path(vec![w.clone()]), RType::Path(vec![w.clone(), w.clone()])]));
+            all.push(RType::Complex(vec!["a".into(), w.clone()], vec![RType::Complex(vec![w.clone(), "c9".into()], vec![RType::Unit, RType::Path(vec![w.clone()])])]));
+        }
+    }
     let n = all.len();
     let accs: Vec<Acc> = (0..n)
         .into_par_iter()
